@@ -161,6 +161,8 @@ async function serve(cmd) {
 }
 
 // ---- clients ----
+const reusedClients = new Map();
+
 async function call(cmd) {
   const mod = await load(cmd.file);
   const Cls = mod[cmd.cls];
@@ -180,7 +182,12 @@ async function call(cmd) {
   }
   const ev = { ev: "client_return", id: cmd.id };
   try {
-    const client = new Cls(cmd.url, copts);
+    // cmd.reuse: keep one client object per key, so a sequence of calls runs on the same instance
+    let client = cmd.reuse ? reusedClients.get(cmd.reuse) : undefined;
+    if (!client) {
+      client = new Cls(cmd.url, copts);
+      if (cmd.reuse) reusedClients.set(cmd.reuse, client);
+    }
     if (typeof client[cmd.method] !== "function") {
       emit({ ev: "error", id: cmd.id, err: "no method " + cmd.method });
       return;
